@@ -10,8 +10,11 @@ import tempfile
 import time
 
 ROOT = os.path.dirname(os.path.dirname(os.path.abspath(__file__)))
-EVIDENCE_DIR = os.path.join(ROOT, "evidence")
-REPLAY_DIR = os.path.join(ROOT, "replays")
+# VERIF_EVIDENCE_DIR / VERIF_NO_REPLAY_FILES: used when evaluating seeded defects in scratch worktrees, so that such
+# runs never overwrite the evidence of /repo itself nor litter /verif/replays
+EVIDENCE_DIR = os.environ.get("VERIF_EVIDENCE_DIR") or os.path.join(ROOT, "evidence")
+REPLAY_DIR = (os.path.join(tempfile.gettempdir(), "verif-scratch-replays") if os.environ.get("VERIF_NO_REPLAY_FILES")
+              else os.path.join(ROOT, "replays"))
 FINDINGS_FILE = os.path.join(ROOT, "known_findings.json")
 
 _scratch = None
@@ -118,6 +121,7 @@ class Report:
             "level": self.level,
             "coverage": jsonable(cov),
             "assumptions": self.assumptions,
+            "source_tree": os.environ.get("VERIF_REPO", "/repo"),
             "wall_s": round(time.time() - self.t0, 2),
             "violations": violations,
         }
@@ -148,11 +152,18 @@ def e1_report(rep: Report, module, cases, stats, completed, levels, bound, sampl
         ok = 0
         for _ in range(2):
             try:
-                out = module.run_case(cases[case_idx], choices)
+                from mc import explore as _ex
+
+                out = _ex.with_wall_limit(lambda: module.run_case(cases[case_idx], choices), _ex.WALL_LIMIT)
                 if any(k == key for k, _ in out.failures):
                     ok += 1
             except Exception as e:  # noqa
                 pass
+            except BaseException as e:  # noqa
+                if type(e).__name__ == "WallTimeout" and key.endswith("|spin"):
+                    ok += 1
+                elif type(e).__name__ != "WallTimeout":
+                    raise
         if ok == 2:
             rep.fail(key, msg, {"case": cases[case_idx], "choices": _rle(choices)})
         else:
